@@ -679,6 +679,7 @@ func (m *Model) evalCall(pl *Pipeline, c *Call, inputs map[string]interface{}, i
 	thisDim := path
 	disabled := ctx.disabled
 	disabledUnknown := false
+	condVaries := false
 	if c.Disabled != nil {
 		ctxDeps = ctxDeps.addAll(expDeps(c.Disabled, inputDeps, callDeps), "disabled")
 		dd := DimSet{}.addAll(expDims(c.Disabled, inputDims, callDims))
@@ -698,6 +699,10 @@ func (m *Model) evalCall(pl *Pipeline, c *Call, inputs map[string]interface{}, i
 			}
 		}
 		ctxDims = ctxDims.addAll(dd)
+		// a condition that is the same literal for every fork is folded by the
+		// compiler; one that varies with a map dimension or comes from a stage is
+		// only known per fork / at run time
+		condVaries = len(dd) > 0 || len(expDeps(c.Disabled, inputDeps, callDeps)) > 0
 		if !disabled {
 			v, _ := m.evalExp(c.Disabled, inputs, selfTypes, calls, callTypes)
 			if b, known := isTrue(v); known {
@@ -798,11 +803,21 @@ func (m *Model) evalCall(pl *Pipeline, c *Call, inputs map[string]interface{}, i
 				m.Disabled = append(m.Disabled, path+" "+sub.context)
 				// A disabled call's (null) outputs are still only
 				// available once its disabling condition is known.
+				// ... and they are forked along every map dimension the call
+				// depends on (through its condition or through its arguments):
+				// the runtime decides the forks of a node before it knows
+				// which of them will turn out disabled
 				dd := map[string]DepSet{}
 				dm := map[string]DimSet{}
+				allDims := DimSet{}.addAll(ctxDims)
+				if condVaries && !ctx.disabled {
+					for _, d := range argDims {
+						allDims = allDims.addAll(d)
+					}
+				}
 				for _, o := range outs {
 					dd[o.Name] = ctxDeps
-					dm[o.Name] = ctxDims
+					dm[o.Name] = allDims
 				}
 				return nullOuts(outs), dd, dm
 			}
